@@ -101,9 +101,12 @@ def linear_spline(
         bin_width = 1.0 / num_bins
         logabsdet = torch.log(input_pdfs) - np.log(bin_width)
 
+    # The spline above maps the unit interval onto itself: account for the rescaling to the box.
     if inverse:
         outputs = outputs * (right - left) + left
+        logabsdet = logabsdet + np.log(right - left) - np.log(top - bottom)
     else:
         outputs = outputs * (top - bottom) + bottom
+        logabsdet = logabsdet + np.log(top - bottom) - np.log(right - left)
 
     return outputs, logabsdet
